@@ -209,10 +209,17 @@ def validate_and_decide(rep, cases, sig_fn=None, count_events=("Encode",), sampl
         t = c.prog["rtype"]
         rep.distinct(gen.shape_key(t), nontrivial(t))
         if ok:
-            if sample_fn:
-                s = sample_fn(c)
-                if s:
-                    rep.sample(s)
+            s = sample_fn(c) if sample_fn else None
+            if s is None and c.events:
+                e = dict(c.events[-1])
+                for k in ("v", "mem", "tree", "vS", "tS", "t"):
+                    if k in e and len(json.dumps(e[k])) > 400:
+                        e[k] = json.dumps(e[k])[:400] + "..."
+                if "bytes" in e:
+                    e["bytes"] = bytes(e["bytes"]).hex()[:200]
+                s = {"id": c.cid, "schema": program_text(c.prog), "last_event": e}
+            if s:
+                rep.sample(s)
             continue
         clause = why.split(":", 1)[-1]
         if clause.startswith("machinery"):
